@@ -1,16 +1,16 @@
 reg("C17", "automatic model fitting returns a usable, constraint-abiding model or reports failure",
-    parts=[dict(harness="c17_fit", cases=dict(quick=480, thorough=8000), timeout_case=300)],
+    parts=[dict(harness="c17_fit", cases=dict(quick=480, thorough=6000), timeout_case=300)],
     rule="case = (source in {variogram computed from a harness-simulated data set, hand-made Vario through the public "
          "setters, variogram map}, ndim 1-3, nvar 1-3, 1-4 directions, pathology in {none, noisy, non-monotone, empty lags, "
          "pure nugget, all-zero, huge, tiny, few pairs}, 1-4 basic structures from the types offered for the dimension, "
          "constraint class in {none, ConsItem boxes/equalities on SILL/RANGE/ANGLE/PARAM, contradictory box, constant total sill}, "
          "every Option_VarioFit flag and Option_AutoFit parameter) drawn from the case PRNG; Model::fit / fitFromCovIndices / "
-         "fitFromVMap is called and the returned model is validated (sill PSD by long-double Jacobi, ranges, third parameter, "
+         "fitFromVMap is called (one case in seven fits the sills alone through ModelOptimSillsVario::fit / model_fitting_sills on a model with given ranges) and the returned model is validated (sill PSD by long-double Jacobi, ranges, third parameter, "
          "every user constraint, documented option promises, dumpToNF/createFromNF round trip, kriging with the reloaded model); "
          "quality of fit is never judged; distinct = distinct signatures (source, ndim, nvar, ndir, pathology, number of "
          "structures, constraint class, option mask, weighting mode, expected-failure class) with >= 1 oracle evaluation",
     require=dict(distinct=100, oracles=dict(quick={"sill-psd": 150, "range-pos": 150, "nf-roundtrip": 80, "kriging-runs": 80},
-                                            thorough={"sill-psd": 3000, "range-pos": 3000, "nf-roundtrip": 1600, "kriging-runs": 1600})),
+                                            thorough={"sill-psd": 2000, "range-pos": 2000, "nf-roundtrip": 1000, "kriging-runs": 1000})),
     assumptions=["constraints are only drawn on parameters that exist under the requested options and variogram geometry "
                  "(e.g. no second-range constraint for an omnidirectional variogram)",
                  "Option_VarioFit promises are asserted exactly as worded in Option_VarioFit.hpp; lock_iso2d only in 3-D"])
